@@ -144,6 +144,28 @@ func (w *World) runProperty(id string) *propRun {
 			}
 		}
 	}
+	if id == "C18" {
+		// the frame at the level of the whole repository: no function outside
+		// package initialisation writes a package-level variable (or memory one
+		// load away from it). An in-place append to a global slice is allowed
+		// only in a function under contract, where its frame[append] obligation
+		// decides it.
+		c := NewCtx(w, nil, ModeInt)
+		found := w.scanGlobalWrites()
+		o := &Obligation{Name: "repository#global-scan[completed]", Kind: "globalwrite", Goal: "true", Text: fmt.Sprintf("scan of every function for writes to package-level variables: %d candidate(s)", len(found)), Ctx: c, Blk: -1}
+		c.Obls = append(c.Obls, o)
+		for _, gw := range found {
+			goal := "false"
+			if strings.HasPrefix(gw.How, "append") {
+				if ct := w.Specs.Contracts[gw.Func]; ct != nil && !ct.Trusted && ct.HasAssigns {
+					goal = "true"
+				}
+			}
+			c.Obls = append(c.Obls, &Obligation{Name: fmt.Sprintf("repository#global-write[%s in %s: %s]", strings.TrimPrefix(gw.Global, w.ModPath+"/go/"), strings.TrimPrefix(gw.Func, w.ModPath+"/go/"), gw.How), Kind: "globalwrite", Goal: goal, Text: "write to a package-level variable outside initialisation at " + gw.Pos, Ctx: c, Blk: -1})
+		}
+		pr.ctxs = append(pr.ctxs, c)
+		pr.obls = append(pr.obls, c.Obls...)
+	}
 	sort.Strings(pr.funcs)
 	return pr
 }
@@ -257,7 +279,11 @@ func (w *World) checkProperty(id, tier string, seed int, t0 time.Time, writeEvid
 		fmt.Printf("VIOLATION property=%s replay=%s obligation=%q reason=%q%s\n", id, path, r.Obl.Name, why, suffix)
 	}
 	for _, r := range results {
-		solverTime += r.TimeS
+		if r.SumS > 0 {
+			solverTime += r.SumS
+		} else {
+			solverTime += r.TimeS
+		}
 		o := r.Obl
 		_, inBase := base[o.Name]
 		if o.Kind == "cover" {
@@ -322,6 +348,11 @@ func (w *World) checkProperty(id, tier string, seed int, t0 time.Time, writeEvid
 		}
 		if inBase {
 			report(r, "proved on the baseline tree, now "+r.Status+" ("+r.Reason+")")
+			continue
+		}
+		if o.Kind == "globalwrite" && r.Status != "proved" {
+			// decided by the scan itself: there is no input to replay
+			report(r, "a function outside package initialisation writes a package-level variable: "+o.Text)
 			continue
 		}
 		if r.Status == "refuted" || r.Status == "refuted-candidate" {
@@ -464,6 +495,14 @@ func (w *World) checkKnown(kf *KnownFinding, r *Result, dir string, timeout int)
 	o2 := *o
 	o2.Name = o.Name + "#outside-known"
 	o2.Extra = append(extra, "(assert (not "+t+"))")
+	if len(o.Parts) > 0 {
+		o2.Parts = nil
+		for _, p := range o.Parts {
+			p2 := *p
+			p2.Extra = append(append([]string{}, extra...), "(assert (not "+t+"))")
+			o2.Parts = append(o2.Parts, &p2)
+		}
+	}
 	r2 := discharge(&o2, dir, timeout, false)
 	if r2.Status != "proved" {
 		r.Status, r.Reason, r.Model = r2.Status, "outside known region: "+r2.Reason, r2.Model
